@@ -9,6 +9,7 @@ import (
 	"errors"
 	"fmt"
 	"math"
+	"sync"
 
 	protov1 "github.com/golang/protobuf/proto"
 	"github.com/jhump/protoreflect/desc"
@@ -270,8 +271,11 @@ func junk(typ string) proto.Message {
 // ------------------------------------------------------------ representations
 
 var mdCache = map[string]*desc.MessageDescriptor{}
+var mdMu sync.Mutex // client and handler goroutines both build dynamic messages
 
 func descFor(gen proto.Message) *desc.MessageDescriptor {
+	mdMu.Lock()
+	defer mdMu.Unlock()
 	name := string(gen.ProtoReflect().Descriptor().FullName())
 	if md := mdCache[name]; md != nil {
 		return md
